@@ -272,3 +272,28 @@ def mkobj(tag='k'):
   if CONSTRUCT_HOOK[0] is not None:
     CONSTRUCT_HOOK[0](tag)
   return object()
+
+
+# ---- C11: a function behind a signature-agnostic functools.wraps decorator ------------------------
+import functools as _functools
+
+
+def _agnostic(fn):
+  @_functools.wraps(fn)
+  def wrapper(*args, **kwargs):
+    return fn(*args, **kwargs)
+  return wrapper
+
+
+@gin.configurable(module='vw')
+@_agnostic
+def wrapped(a=DA, b=DB):
+  rec('wrapped', a, b)
+  return (a, b)
+
+
+@gin.configurable(module='vw', denylist=['b'])
+@_agnostic
+def wrapped_deny(a=DA, b=DB):
+  rec('wrapped_deny', a, b)
+  return (a, b)
